@@ -53,6 +53,9 @@ CHECKS = {
  'C14': dict(cat='proof', tech='deductive: typestate contracts with a ghost delivery log on the real ResponseFuture completion functions, callback registration, result(), every branch of _set_result (progress), _on_speculative_execute and start_fetching_next_page; lock-discipline obligations',
              text='Exactly-once delivery is the typestate contract of the two completion functions (proved for any number of registered callbacks up to 2 of each kind, unrolled) plus one-way-forward progress for every response kind. The typestate precondition is NOT established by the callers: recorded as known finding KF-C14-second-completion (a second outcome is delivered again).',
              ref='DESIGN.md §4 C14'),
+ 'C15': dict(cat='proof', tech='deductive: postconditions "completed or re-armed within the deadline" with a ghost clock on the real _start_timer/_on_timeout/_on_speculative_execute/start_fetching_next_page/send_request',
+             text='The TIMER invariant (finite timeout and not completed => a live timer with deadline within the budget) is established and preserved by each timer-handling method for arbitrary clock readings; boundedness follows by a ranking argument (meta-argument). Timer service accuracy is assumed (E-TIMER).',
+             ref='DESIGN.md §4 C15'),
 }
 
 NA_REASON = {}
